@@ -10,7 +10,7 @@ import (
 
 func Run(c *common.Ctx) error {
 	cfgs := []hist.Config{
-		{PageSize: 512, Regime: 0, AllowWAL: true, AllowDrop: true, ForceWAL: true},
+		{PageSize: 512, Regime: 0, AllowWAL: true, AllowDrop: true, BackToRollback: true},
 		{PageSize: 512, Regime: 1, AllowWAL: true, ForceWAL: true},
 		{PageSize: 512, Regime: 1, AllowWAL: true, ForceWAL: true, BigEndian: true},
 		{PageSize: 512, Regime: 2, AllowWAL: true, ForceWAL: true, AllowDrop: true},
@@ -34,7 +34,7 @@ func Run(c *common.Ctx) error {
 		}
 		h.Run(c.Pick(25, 60))
 		h.CheckCrash(c, "C03")
-		h.CheckCapture(c, "C03", map[string]bool{"wtx": true, "lockonly": true, "appckpt": true, "lfsckpt": true})
+		h.CheckCapture(c, "C03", map[string]bool{"wtx": true, "lockonly": true, "appckpt": true, "lfsckpt": true, "torollback": true, "rtx": true})
 		cf.Add(h.CoqCase(), map[string]any{"kind": "history", "page_size": cfg.PageSize, "regime": cfg.Regime, "big_endian_wal": cfg.BigEndian, "steps": h.Steps})
 		for _, ob := range h.Obs {
 			c.Count("op_"+ob.Op, 1)
